@@ -825,10 +825,10 @@ fn fold_constraint_set(
                     }
                     _ => (),
                 };
-                let min = compare_optional_asn1values(min1.as_ref(), min2.as_ref(), |m1, m2| {
+                let min = hull_optional_asn1values(min1.as_ref(), min2.as_ref(), |m1, m2| {
                     m1.min(m2, char_set)
                 })?;
-                let max = compare_optional_asn1values(max1.as_ref(), max2.as_ref(), |m1, m2| {
+                let max = hull_optional_asn1values(max1.as_ref(), max2.as_ref(), |m1, m2| {
                     m1.max(m2, char_set)
                 })?;
                 Ok(Some(SubtypeElements::ValueRange {
@@ -944,8 +944,8 @@ fn union_single_and_range(
         | (ASN1Value::String(_), Some(ASN1Value::Integer(_)), _, _, _, _)
         | (ASN1Value::String(_), _, Some(ASN1Value::Integer(_)), _, _, _) => Ok(None),
         (ASN1Value::Integer(_), _, _, extensible, _, _) => Ok(Some(SubtypeElements::ValueRange {
-            min: compare_optional_asn1values(Some(v), min, |a, b| a.min(b, char_set))?,
-            max: compare_optional_asn1values(Some(v), max, |a, b| a.max(b, char_set))?,
+            min: hull_optional_asn1values(Some(v), min, |a, b| a.min(b, char_set))?,
+            max: hull_optional_asn1values(Some(v), max, |a, b| a.max(b, char_set))?,
             extensible,
         })),
         (_, _, _, true, _, _) => Ok(None),
@@ -1013,6 +1013,18 @@ fn compare_optional_asn1values(
         (Some(f), Some(s)) => Ok(Some(predicate(f, s)?)),
         (None, Some(s)) => Ok(Some(s.clone())),
         (Some(f), None) => Ok(Some(f.clone())),
+        _ => Ok(None),
+    }
+}
+
+/// Bound of the hull of two ranges: an absent bound (`MIN`/`MAX`) leaves the hull unbounded.
+fn hull_optional_asn1values(
+    first: Option<&ASN1Value>,
+    second: Option<&ASN1Value>,
+    predicate: impl Fn(&ASN1Value, &ASN1Value) -> Result<ASN1Value, GrammarError>,
+) -> Result<Option<ASN1Value>, GrammarError> {
+    match (first, second) {
+        (Some(f), Some(s)) => Ok(Some(predicate(f, s)?)),
         _ => Ok(None),
     }
 }
